@@ -183,6 +183,16 @@ func (r *Report) finish(e *Engine, units []*UnitResult, obls []*Obligation, verb
 		fmt.Printf("BROKEN: no obligations were generated\n")
 		broken = true
 	}
+	var retried []string
+	for _, o := range obls {
+		if !o.Cover && o.Status == "unsat" && strings.Contains(o.Solver, "(seed") {
+			retried = append(retried, o.Name+" ["+o.Solver+"]")
+		}
+	}
+	for _, u := range retried {
+		// discharged, but only at a retry under another solver seed: a fragile obligation worth strengthening
+		fmt.Printf("NOTE: discharged only at a retry under another solver seed: %s\n", u)
+	}
 	for _, u := range r.Unstable {
 		// discharged under the run's seed (a proof), not re-proved under another seed: a robustness note, not a failure
 		fmt.Printf("NOTE: not re-proved under another seed: %s\n", u)
@@ -267,6 +277,7 @@ func (r *Report) finish(e *Engine, units []*UnitResult, obls []*Obligation, verb
 		"bounded":                  r.Plan.Bounded,
 		"units_not_verified":       len(unitErrs),
 		"seed_reruns":              r.Reruns,
+		"discharged_at_seed_retry": retried,
 		"seed_reruns_not_reproved": r.Unstable,
 		"contract_files":           e.files,
 	}
